@@ -4,6 +4,9 @@ One case = (generator, JSON configuration, batch size, torch seed, route, episod
 configuration into generator kwargs, builds the generator (directly, or through `EnvCls(generator_params=...)`),
 draws one batch, judges it with the generator's validity predicates (all vectorised) and finally drives a
 mask-confined episode from `env.reset(td)` to `done` within the C02 step bound.
+
+Sub `samplers` (vf/c18_samplers.py) drives the coordinate sampler classes of envs/common/distribution_utils.py directly
+and through get_sampler: large batches, uneven cluster splits, border (clamp) region reached in most cases.
 """
 import math
 
@@ -13,6 +16,7 @@ import torch
 from ..c18_lib import (INF, SQ2, Judge, coord_extent, coord_kwargs, coord_params, defaults_of, dist0, dist_kwargs, dist_range,
                        first_bad, is_int, loc_dist, needs_two_points, q, repo_call, scalar_const, scalar_dist, scalar_kwargs,
                        scalar_range, seed_all, sizes)
+from ..c18_samplers import cases as sampler_cases, execute as execute_samplers
 from ..envs import SPECS, py_instance
 from ..episode import MODES, run_episode
 from ..runner import Sub
@@ -33,8 +37,19 @@ RULE = (
     "generator object is called three times: the second batch (other seed, same or other batch size) is judged by the same "
     "predicates, must leave the first batch untouched and be a fresh draw; a third call under the first seed must "
     "reproduce the first batch. "
-    "bulk = the same predicates on 10^5-row draws of CVRP/CVRPTW/MTVRP. Non-trivial = configuration differing from the "
-    "generator's defaults in >= 2 parameters; distinct = distinct case hash."
+    "bulk = the same predicates on 10^5-row draws of CVRP/CVRPTW/MTVRP. "
+    "samplers = the coordinate sampler classes of envs/common/distribution_utils.py (Cluster, Mixed, Gaussian_Mixture, "
+    "Mix_Distribution, Mix_Multi_Distributions) built directly (keyword / positional / default constructor arguments) or through "
+    "get_sampler(name, low, high, **kwargs incl. unrelated ones), plus get_sampler's plain names (uniform, Uniform, constant, "
+    "center, corner, normal, gaussian, exponential, poisson); n_cluster 1-12, n_cluster_mix 1-6, (num_modes, cdist) from the 11 "
+    "published pairs and off-list pairs (num_modes 0-9, cdist 0-100), the public `std` attribute at its default 0.07 or set to "
+    "0.035-0.2; sample((batch 1-256, num_loc 1-100, 2)) three times per object: first size, another drawn size under another RNG "
+    "state, first size under the first RNG state again; RNG seeded from the case. Counted classes: num_loc not a multiple of "
+    "n_cluster / odd halves (uneven_split), n_cluster > num_loc, coordinates clamped exactly to 0.0 or 1.0 (border_hit), frame "
+    "tests that could tell the documented composition from its alternatives (frame_test_with_power). "
+    "Non-trivial = configuration differing from the generator's defaults in >= 2 parameters; for samplers: a clamping sampler "
+    "(cluster / mixed / mix_distribution) with an uneven split over its clusters AND at least one coordinate on the border 0.0 / "
+    "1.0, or a min-max scaling sampler judged per instance on >= 2 instances of >= 3 points; distinct = distinct case hash."
 )
 ASSUMPTIONS = [
     "asserted predicates are those of the generator docstrings and of the consuming env (reset / mask / check_solution_validity); "
@@ -58,6 +73,16 @@ ASSUMPTIONS = [
     "generated capacity is [B,1] with num_depot > 1 (F5) the solvable clause is judged with capacity expanded to [B,num_depot]",
     "mTSP num_loc=1 and SVRP single-technician lists are generated and reported under their own boundary signatures "
     "(mtsp|single_loc|*, svrp|single_tech|*)",
+    "samplers: the contract is read from the class docstrings / code comments and from the one way every generator consumes a "
+    "sampler, sample((batch, num_loc, 2)) -> [batch, num_loc, 2]: 'Confine the coordinates to range [0, 1]' (exact), min-max "
+    "scaling per instance (min 0 / max 1 per coordinate, 1e-6), the (1, 1) kind centred per instance with larger range 1 (1e-5), "
+    "'50% uniform / 50% gaussian' for Mixed (either rounding of an odd size). The order of the nodes inside an instance and "
+    "which cluster a node belongs to are NOT asserted (not documented, not observable without the hidden centres). Statistical "
+    "clauses (frame counts of Cluster / Mixed with the object's own std / lower / upper attributes, skipped when those are absent; "
+    "number of un-normalised Mix_Multi_Distributions instances) use Bernstein / exact binomial tails below 1e-12 per test; "
+    "'no unsampled node slot' needs both coordinates of one node index clamped to 0 in >= 6 instances (< 1e-12). Setting the "
+    "public attribute `std` after construction is taken to be inside the domain (the clamp comment is unconditional); "
+    "min-max scaling samplers with a single point (0/0) are excluded by construction as in the generator subs",
 ]
 TIME_CAP = {"quick": 400, "thorough": 3000}
 
@@ -1415,8 +1440,10 @@ def again(g, case, ctx, gen, td1, kw, spies, crash):
               f"{name}: the batch returned by the first call changed in {diff!r} when the generator was called again")
     # fresh draw: some float key with >= 4 distinct values in the first batch must not come back identical
     if B2 == B:
-        # (a key whose rows all coincide - grid coordinates, constants - is configuration, not a draw)
-        rich = [k for k in td1.keys() if td1[k].dtype.is_floating_point and td1[k].unique().numel() >= 4
+        # (a key whose rows all coincide - grid coordinates, constants - is configuration, not a draw; so is OP's
+        #  max_length when the configuration hands over one value per row)
+        fixed = ("max_length",) if name_is_batch_bound(g, p) else ()
+        rich = [k for k in td1.keys() if td1[k].dtype.is_floating_point and td1[k].unique().numel() >= 4 and k not in fixed
                 and B >= 2 and not bool((td1[k] == td1[k][:1]).all())
                 and k in td2.keys() and td2[k].shape == td1[k].shape]
         if rich:
@@ -1574,4 +1601,5 @@ SUBS = [
     Sub("graph", execute, strategy=fam(["mcp", "flp"], {"mcp": 2}), budget={"quick": 784, "thorough": 5000}, shards=16),
     Sub("eda", execute, strategy=fam(["dpp", "mdpp"]), budget={"quick": 480, "thorough": 3000}, shards=16),
     Sub("bulk", execute_bulk, strategy=bulk_cases, budget={"quick": 144, "thorough": 480}, shards=16, weight=3.0),
+    Sub("samplers", execute_samplers, strategy=sampler_cases, budget={"quick": 6000, "thorough": 60000}, shards=16),
 ]
